@@ -92,13 +92,14 @@ type Col struct {
 }
 
 type Part struct {
-	Col        string `json:"col,omitempty"`
-	Expr       string `json:"expr,omitempty"`
-	Desc       bool   `json:"desc,omitempty"`
-	Prefix     int    `json:"prefix,omitempty"`
-	Ops        string `json:"ops,omitempty"`
-	NullsFirst bool   `json:"nulls_first,omitempty"`
-	NullsLast  bool   `json:"nulls_last,omitempty"`
+	Col        string      `json:"col,omitempty"`
+	Expr       string      `json:"expr,omitempty"`
+	Desc       bool        `json:"desc,omitempty"`
+	Prefix     int         `json:"prefix,omitempty"`
+	Ops        string      `json:"ops,omitempty"`
+	OpsParams  [][2]string `json:"ops_params,omitempty"` // operator-class parameters (name, value), in order
+	NullsFirst bool        `json:"nulls_first,omitempty"`
+	NullsLast  bool        `json:"nulls_last,omitempty"`
 }
 
 type Idx struct {
@@ -544,8 +545,15 @@ func Build(sp *Sch, k kinds) (*schema.Schema, error) {
 				k.add(what + ".part.prefix")
 			}
 			if p.Ops != "" {
-				ip.AddAttrs(&postgres.IndexOpClass{Name: p.Ops})
+				op := &postgres.IndexOpClass{Name: p.Ops}
+				for _, kv := range p.OpsParams {
+					op.Params = append(op.Params, struct{ N, V string }{N: kv[0], V: kv[1]})
+				}
+				ip.AddAttrs(op)
 				k.add(what + ".part.ops")
+				if n := len(p.OpsParams); n > 0 {
+					k.add(fmt.Sprintf("%s.part.ops.params=%d", what, n))
+				}
 			}
 			if p.NullsFirst || p.NullsLast {
 				ip.AddAttrs(&postgres.IndexColumnProperty{NullsFirst: p.NullsFirst, NullsLast: p.NullsLast})
